@@ -53,6 +53,7 @@ class C05(Check):
                     if idx % nshards != shard:
                         continue
                     yield {'w': w, 's': s, 'parent': 'top', 'parent_node': None, 'items': list(range(n))}
+        self.box_done = 1
 
     def _nested(self, rng, tier):
         k = 1500 if tier == 'quick' else 15000
@@ -107,6 +108,11 @@ class C05(Check):
                 return out
         out.observed['events_logged'] += len(ob.log)
         return out
+
+    box_done = 0
+
+    def extra_evidence(self):
+        return {'shards_that_enumerated_their_part_of_the_box_completely': self.box_done}
 
     def shrink(self, case):
         items = case['items']
